@@ -109,7 +109,7 @@ def gen_cases(tier, seed):
 
 def tree(root="."):
     out = c01.tree_outputs(root)
-    return {p: v for p, v in out.items() if not os.path.basename(p).startswith("zz-sentinel")}
+    return {p: v for p, v in out.items() if not os.path.basename(p).startswith(("zz-sentinel", ".crash-events"))}
 
 
 def list_dirs(root="."):
